@@ -2,17 +2,25 @@
    in read mode from begin_session until they are dropped or finished; commit and rollback hold
    it in write mode around the previous-root check and the store commit; the non-blocking
    flavours use try_write.  Small-step semantics over any number of threads; the observable
-   labels carry what a session read and what each commit attempt returned. *)
+   labels carry what a session read and what each commit attempt returned.
+
+   The previous-root check of a (parent-less) session compares TWO things under the write guard:
+   the committed root with the session's previous root, and the store's commit count with the
+   count sampled by begin_session (`shared.commit_count` / `base_commit_count` in lib.rs).  The
+   same key/value set can come back (write then delete) while the pages behind it have changed, so
+   equality of the states alone does not make a change set valid: [lver] is that count. *)
 From Nomt Require Import Base.
 
 Inductive tst :=
 | TIdle
-| TSession (snap : kv)                  (* holds the read guard; snap = committed state at begin *)
-| TFinished (base result : kv)          (* a FinishedSession: no guard held *)
-| TWriting (base result : kv).          (* inside the critical section of a commit: write guard held *)
+| TSession (snap : kv) (ver : N)        (* holds the read guard; snap, ver = committed state and
+                                           commit count at begin *)
+| TFinished (base result : kv) (ver : N)  (* a FinishedSession: no guard held *)
+| TWriting (base result : kv) (ver : N).  (* inside the critical section of a commit: write guard held *)
 
 Record lstate := {
   lcur : kv;                            (* committed state *)
+  lver : N;                             (* number of successful commits so far *)
   readers : nat;                        (* read guards held on the access lock *)
   writer : bool;                        (* write guard held *)
   threads : list tst                    (* thread i is [nth i threads TIdle] *)
@@ -36,31 +44,44 @@ Fixpoint set_nth (l : list tst) (i : nat) (x : tst) : list tst :=
   end.
 
 Definition with_thread (s : lstate) (t : nat) (x : tst) (c : kv) (r : nat) (w : bool) : lstate :=
-  {| lcur := c; readers := r; writer := w; threads := set_nth (threads s) t x |}.
+  {| lcur := c; lver := lver s; readers := r; writer := w; threads := set_nth (threads s) t x |}.
+
+(* a successful commit is counted *)
+Definition bump (s : lstate) : lstate :=
+  {| lcur := lcur s; lver := (lver s + 1)%N; readers := readers s; writer := writer s;
+     threads := threads s |}.
+
+(* the check made under the write guard: the change set was prepared on the committed state AND
+   no commit has succeeded since its session began *)
+Definition fresh (s : lstate) (base : kv) (ver : N) : bool :=
+  kv_eqb (lcur s) base && N.eqb (lver s) ver.
 
 Inductive lstep : lstate -> label -> lstate -> Prop :=
-(* begin_session: RwLock::read_arc - only while no writer holds the lock *)
+(* begin_session: RwLock::read_arc - only while no writer holds the lock; then the root and the
+   commit count are sampled together *)
 | st_begin : forall s t, t < length (threads s) -> nth t (threads s) TIdle = TIdle -> writer s = false ->
-    lstep s (LBegin t) (with_thread s t (TSession (lcur s)) (lcur s) (S (readers s)) false)
+    lstep s (LBegin t) (with_thread s t (TSession (lcur s) (lver s)) (lcur s) (S (readers s)) false)
 (* Session::read / prove: answered from the store, which nobody may change meanwhile *)
-| st_read : forall s t snap k, nth t (threads s) TIdle = TSession snap ->
+| st_read : forall s t snap v k, nth t (threads s) TIdle = TSession snap v ->
     lstep s (LRead t k (get (lcur s) k)) s
 (* dropping the session releases the read guard *)
-| st_end : forall s t snap, nth t (threads s) TIdle = TSession snap ->
+| st_end : forall s t snap v, nth t (threads s) TIdle = TSession snap v ->
     lstep s (LEnd t) (with_thread s t TIdle (lcur s) (pred (readers s)) (writer s))
-(* Session::finish consumes the session: the guard is released, the change set keeps its base *)
-| st_finish : forall s t snap (batch : list change), nth t (threads s) TIdle = TSession snap ->
-    lstep s (LFinish t) (with_thread s t (TFinished snap (apply snap batch)) (lcur s) (pred (readers s)) (writer s))
+(* Session::finish consumes the session: the guard is released, the change set keeps its base and
+   the commit count it was taken on *)
+| st_finish : forall s t snap v (batch : list change), nth t (threads s) TIdle = TSession snap v ->
+    lstep s (LFinish t) (with_thread s t (TFinished snap (apply snap batch) v) (lcur s) (pred (readers s)) (writer s))
 (* blocking commit / successful try_write: needs no reader and no writer *)
-| st_acquire : forall s t b r, nth t (threads s) TIdle = TFinished b r -> readers s = 0 -> writer s = false ->
-    lstep s (LAcquire t) (with_thread s t (TWriting b r) (lcur s) 0 true)
+| st_acquire : forall s t b r v, nth t (threads s) TIdle = TFinished b r v -> readers s = 0 -> writer s = false ->
+    lstep s (LAcquire t) (with_thread s t (TWriting b r v) (lcur s) 0 true)
 (* non-blocking commit while the lock is taken: the change set is handed back, nothing changes *)
-| st_deferred : forall s t b r, nth t (threads s) TIdle = TFinished b r -> (readers s <> 0 \/ writer s = true) ->
+| st_deferred : forall s t b r v, nth t (threads s) TIdle = TFinished b r v -> (readers s <> 0 \/ writer s = true) ->
     lstep s (LDeferred t) s
-(* inside the critical section: previous-root check, then the store commit, then release *)
-| st_commit_ok : forall s t b r, nth t (threads s) TIdle = TWriting b r -> kv_eqb (lcur s) b = true ->
-    lstep s (LCommitOk t) (with_thread s t TIdle r 0 false)
-| st_commit_stale : forall s t b r, nth t (threads s) TIdle = TWriting b r -> kv_eqb (lcur s) b = false ->
+(* inside the critical section: previous-root and commit-count check, then the store commit, then
+   release *)
+| st_commit_ok : forall s t b r v, nth t (threads s) TIdle = TWriting b r v -> fresh s b v = true ->
+    lstep s (LCommitOk t) (bump (with_thread s t TIdle r 0 false))
+| st_commit_stale : forall s t b r v, nth t (threads s) TIdle = TWriting b r v -> fresh s b v = false ->
     lstep s (LCommitStale t) (with_thread s t TIdle (lcur s) 0 false).
 
 Inductive lrun : lstate -> list label -> lstate -> Prop :=
@@ -68,9 +89,9 @@ Inductive lrun : lstate -> list label -> lstate -> Prop :=
 | run_cons : forall s l s' ls s'', lstep s l s' -> lrun s' ls s'' -> lrun s (l :: ls) s''.
 
 Definition linit (c : kv) (n : nat) : lstate :=
-  {| lcur := c; readers := 0; writer := false; threads := repeat TIdle n |}.
+  {| lcur := c; lver := 0%N; readers := 0; writer := false; threads := repeat TIdle n |}.
 
 Definition count_sessions (l : list tst) : nat :=
-  length (filter (fun x => match x with TSession _ => true | _ => false end) l).
+  length (filter (fun x => match x with TSession _ _ => true | _ => false end) l).
 Definition count_writing (l : list tst) : nat :=
-  length (filter (fun x => match x with TWriting _ _ => true | _ => false end) l).
+  length (filter (fun x => match x with TWriting _ _ _ => true | _ => false end) l).
